@@ -432,6 +432,30 @@ func (iv *Intervals) def(v ssa.Value, at ssa.Instruction) Interval {
 		return tr
 	case *ssa.Extract:
 		if c, ok := x.Tuple.(*ssa.Call); ok {
+			// The success summary describes the result only where the call is
+			// known to have succeeded; a use before (or without) the err == nil
+			// test sees the results of the failing returns as well.
+			if callee := c.Common().StaticCallee(); callee != nil && len(callee.Blocks) > 0 {
+				if ei := ErrIndex(callee); ei >= 0 && x.Index != ei && !errNilGuarded(c, ei, at) {
+					out := Interval{1, 0}
+					saved := iv.inprog
+					iv.inprog = map[ssa.Value]bool{}
+					if !iv.sumBusy[callee] {
+						iv.sumBusy[callee] = true
+						for _, r := range Returns(callee) {
+							if x.Index < len(r.Results) {
+								out = out.Join(iv.At(r.Results[x.Index], r))
+							}
+						}
+						delete(iv.sumBusy, callee)
+					}
+					iv.inprog = saved
+					if out.Empty() {
+						return tr
+					}
+					return out
+				}
+			}
 			if s := iv.inContext(c, at); s != nil && x.Index < len(s) {
 				return s[x.Index]
 			}
@@ -681,6 +705,18 @@ func (iv *Intervals) BinRaw(x *ssa.BinOp, at ssa.Instruction) (Interval, bool) {
 			return Interval{}, false
 		}
 	return r, true
+}
+
+// errNilGuarded: instruction at is dominated by the edge on which the error
+// result (index ei) of call is nil.
+func errNilGuarded(call *ssa.Call, ei int, at ssa.Instruction) bool {
+	if at == nil {
+		return false
+	}
+	return GuardedBy(at, func(k Cmp) bool {
+		ex, ok := k.X.(*ssa.Extract)
+		return ok && ex.Tuple == ssa.Value(call) && ex.Index == ei && IsNil(k.Y) && k.Op == token.EQL
+	})
 }
 
 // inContext evaluates the integer results of a statically resolved call with
